@@ -250,6 +250,9 @@ impl Prop for C05 {
     fn n_items(&self, tier: Tier) -> u64 {
         1 + n_sampled_chunks(tier)
     }
+    fn n_enumerated_items(&self, _tier: Tier) -> u64 {
+        1
+    }
     fn expand(&self, item: u64, tier: Tier, seed: u64) -> Vec<Scenario> {
         if item == 0 {
             return catalogue_cases(tier);
